@@ -1,6 +1,7 @@
 (* C02 — after unsubscribe() returns the subscriber is never called again. *)
-From RxModel Require Import Timed Chain Ops2 Flatten.
-From RxProofs Require TimedLaws UnsubLaws.
+From RxModel Require Import Timed Chain Ops2 Flatten Ileave.
+From RxSpec Require Import IleaveSpec.
+From RxProofs Require TimedLaws UnsubLaws IleaveInv IleaveLaws.
 
 (* Scheduler-using operators and time sources (delay, observe_on, delay_subscription,
    subscribe_on, debounce, throttle x 3 edges, buffer_with_time, buffer_with_count_and_time,
@@ -34,6 +35,21 @@ Theorem C02_flatten_silent :
     forall x, In x (frun n s live j (FUnsub :: r)) -> exists k, x = FMark k.
 Proof. exact UnsubLaws.flatten_unsub_silent. Qed.
 
+(* The thread-safe subject: an unsubscribing thread against emitting, terminating and subscribing
+   threads (lock-level model Ileave.v), any number of threads, any scripts, ANY schedule at the
+   granularity of mutex acquisitions: once unsubscribe() of a subscriber's subscription has
+   returned, that subscriber is never called again *)
+Theorem C02_threads_subject :
+  forall v0 setup scripts sched,
+    IleaveInv.names_ok setup scripts = true -> IleaveLaws.unsubs_ok setup scripts = true ->
+    let '(tr, e, fin) := run_case v0 setup scripts sched in quiet_after_unsub tr = true.
+Proof. exact IleaveLaws.il_quiet_after_unsub. Qed.
+
+Check C02_threads_subject : forall v0 setup scripts sched,
+    IleaveInv.names_ok setup scripts = true -> IleaveLaws.unsubs_ok setup scripts = true ->
+    let '(tr, e, fin) := run_case v0 setup scripts sched in quiet_after_unsub tr = true.
+Print Assumptions C02_threads_subject.
+
 Check C02_timed : forall o ls1 ls2, TimedLaws.not_raw o ->
     exists before after,
       run_timed o (ls1 ++ LUnsub :: ls2) = before ++ TMark (length ls1) :: after /\
@@ -61,4 +77,12 @@ Proof. vm_compute. reflexivity. Qed.
 Example C02_example_delay :
   run_timed (TDelay 5) [LSrc (Next (VZ 1)); LRun 0; LSrc (Next (VZ 2)); LUnsub; LAdv 9; LRun 1; LRun 0; LSrc (Next (VZ 3)); LRun 2]
   = [TMark 0; TMark 1; TMark 2; TMark 3; TMark 4; TMark 5; TMark 6; TMark 7; TMark 8].
+Proof. vm_compute. reflexivity. Qed.
+
+(* the predicate is not vacuous: an emission in flight when the unsubscription starts is delivered
+   before unsubscribe() returns (it waits for the subscriber's mutex), later ones are not *)
+Example C02_example_threads :
+  let '(tr, e, fin) := run_case 0%Z [ISub 0] [[INext 5%Z; INext 6%Z]; [IUnsub 0]] [0; 0; 0; 0; 1; 0; 1; 0; 0; 0; 0; 0; 0; 0; 0]%nat in
+  (tr, e) = ([TAcq 0 LObs; TAcq 0 LCham; TAcq 0 LObs; TAcq 0 (LCell 0); TEv 0 (YItem 5%Z) 0 0; TAcq 1 (LCell 0); TUn 0 1 0;
+              TAcq 0 LObs; TAcq 0 LCham; TAcq 0 LObs; TAcq 0 (LCell 0)]%nat, EFinished).
 Proof. vm_compute. reflexivity. Qed.
